@@ -82,13 +82,19 @@ def shardLoop (interval remainder idx start : Nat) : Nat × Nat :=
       let adj := if i < remainder then interval + 1 else interval
       (if i < idx then acc.1 + adj else acc.1, adj)) (start, 0)
 
-/-- `SequenceDataSource.shard(shard_index, num_shards, offset)` (io.py:61–77). -/
-def Src.shard (s : Src) (c : Cfg) : Except ErrKind Src :=
+/-- the interval `(_start, _end)` computed by `shard` (io.py:62–77) from the receiver's `(start, end)` -/
+def shardIval (iv : Nat × Nat) (c : Cfg) : Except ErrKind (Nat × Nat) :=
   if c.num < 1 then .error .value
   else
-    let len := s.stop - s.start
-    let r := shardLoop (len / c.num) (len % c.num) c.idx s.start
-    .ok { chain := s.chain ++ [c], start := r.1 + c.off, stop := r.1 + r.2 }
+    let len := iv.2 - iv.1
+    let r := shardLoop (len / c.num) (len % c.num) c.idx iv.1
+    .ok (r.1 + c.off, r.1 + r.2)
+
+/-- `SequenceDataSource.shard(shard_index, num_shards, offset)` (io.py:61–77). -/
+def Src.shard (s : Src) (c : Cfg) : Except ErrKind Src :=
+  match shardIval (s.start, s.stop) c with
+  | .error e => .error e
+  | .ok iv => .ok { chain := s.chain ++ [c], start := iv.1, stop := iv.2 }
 
 /-- `SequenceDataSource(data)` for `len(data) = n`. -/
 def Src.root (n : Nat) : Src := ⟨[Cfg.dflt], 0, n⟩
